@@ -73,6 +73,9 @@ pub struct WorldInner {
     pub query_calls: u64,
     /// set while the harness itself asks something through a recorder: no fault is injected then
     pub plan_suspended: bool,
+    /// set while the scripted contract looks up its own balance to resolve a relative amount (part of the
+    /// script interpreter, not of the scripted behaviour): such queries are not recorded
+    pub rec_suspended: bool,
 }
 
 #[derive(Clone, Default)]
@@ -125,6 +128,9 @@ impl World {
     /// Records a module call that is answered by one of the repo's own modules (no fault plan).
     pub fn module_call_rec(&self, kind: &str, sender: &str, payload: String) {
         let mut w = self.0.borrow_mut();
+        if w.rec_suspended {
+            return;
+        }
         w.module_calls.push(ModCall { kind: kind.to_string(), sender: sender.to_string(), payload });
         *w.call_counts.entry(kind.to_string()).or_insert(0) += 1;
     }
